@@ -12,9 +12,9 @@ from hypothesis import strategies as st
 from vf.models import dimlang as dl
 from vf.models.dimlang import Token
 
-NAMES = ["a", "b", "c", "d", "n", "foo", "batch", "größe"]  # identifiers are not only ASCII
+NAMES = ["a", "b", "c", "d", "n", "foo", "batch", "größe", "e", "pi"]  # identifiers are not only ASCII; 'e', 'pi' are ordinary names too
 VNAMES = ["v", "w", "β", "a"]  # "a" is also a plain axis name: "*a" and "a" are different things
-DOCS = ["rows", "cols", "doc", "x1"]
+DOCS = ["rows", "cols", "doc", "x1", "a", "n"]  # a documentation name may coincide with an axis name used elsewhere: it is still ignored
 SIZES = [0, 1, 2, 3, 4, 5, 7]
 # values of the int arguments usable in {..} holes.  'n' and 'a' are ALSO axis names of the pool on purpose: an axis
 # name in a symbolic expression refers to the bound axis (never to a same-named argument), a name inside {..} to the
